@@ -183,6 +183,13 @@ def _pyval(v):
         return num / den if den != 1 else float(num)
     if z3.is_string_value(v):
         return v.as_string()
+    if z3.is_app(v) and v.sort().name() == "F":
+        nm = v.decl().name()
+        if nm == "fin":
+            return _pyval(v.arg(0))
+        return {"nan": float("nan"), "pinf": float("inf"), "ninf": float("-inf")}[nm]
+    if z3.is_algebraic_value(v):
+        return float(v.approx(12).as_fraction())
     return str(v)
 
 
@@ -365,6 +372,44 @@ class Run:
                               f"{r['verdict']} ({r.get('reason', '')}); {tried} candidate inputs "
                               f"replayed on the real code without failure")
 
+    def bounded_standin(self, unit, reason, budget=600):
+        """The function cannot be verified (engine limit).  Its obligations, which
+        held on the unchanged tree, can no longer be established; look for a
+        concrete failing input by running the real code against the contract's
+        postcondition on small inputs.  Labelled bounded, never counted as proved."""
+        if not (hasattr(self.mod, "bounded_inputs") and hasattr(self.mod, "replay")):
+            return False
+        import random
+        rng = random.Random(self.seed)
+        n = 0
+        rec = {"function": unit.name, "tool": "concrete replay of the contract on small inputs",
+               "reason": reason, "cases": 0, "bound": f"first {budget} inputs of contracts.{self.pid}.bounded_inputs"}
+        self.extra.setdefault("bounded_standins", []).append(rec)
+        for inp in self.mod.bounded_inputs(unit.name, rng):
+            n += 1
+            if n > budget:
+                break
+            try:
+                out = self.mod.replay(unit.name, inp, "")
+            except Exception:
+                continue
+            rec["cases"] = n
+            if out.get("failed"):
+                replay_dir = HERE / "replays"
+                replay_dir.mkdir(exist_ok=True)
+                fn = replay_dir / f"{self.pid}-{_slug(unit.name)}-bounded.json"
+                fn.write_text(json.dumps({
+                    "property": self.pid, "unit": unit.name, "file": unit.path,
+                    "obligation": "postcondition of " + unit.name + " (function left the accepted "
+                    "subset: " + reason + "; failing input found by the bounded stand-in)",
+                    "model_inputs": inp, "model_kind": "bounded enumeration", "replay": out},
+                    indent=1, default=str))
+                print(f"  failed contract: {unit.name} (bounded stand-in)")
+                print(f"  replay: {out.get('detail', '')[:300]}")
+                self.violations.append(f"VIOLATION property={self.pid} replay={fn.relative_to(HERE)}")
+                return True
+        return False
+
     def inputs_for(self, unit, ob):
         """re-run the setup of the unit to get the input terms (deterministic names)"""
         ctx = engine.Ctx(engine.Engine(), unit, [])
@@ -442,7 +487,10 @@ class Run:
         # functions that fell out of the subset: bounded stand-in decides
         for unit, reason in self.unsupported:
             print(f"  not verified (outside the accepted subset): {unit.name}: {reason}")
-            self.undecided.append(f"{unit.name}: {reason}")
+            found = self.bounded_standin(unit, reason)
+            if not found:
+                self.undecided.append(f"{unit.name}: left the accepted subset ({reason}); "
+                                      f"bounded stand-in found no failing input")
         if self.violations:
             status = "violation"
             code = 1
